@@ -106,6 +106,12 @@ def step (s : TkS) (t : List String) : TkS × StepOut :=
         match parseAddr n, parseAuth au with
         | some n, some au => finish s (transferOwnership st (ctx s au [st.owner]) n)
         | _, _ => bad s op
+      | "tk.upgrade_migrate", [auth] =>
+        -- upgrade to the same code + migration of the current tree: owner only, and the identity on everything modelled
+        if auth = "@" then (s, ⟨"ok", "ok"⟩) else
+        match parseAuth auth with
+        | some au => if st.owner ∈ au.toList [st.owner] then (s, ⟨"ok", "ok"⟩) else (s, ⟨"err", "unauthorized"⟩)
+        | none => bad s op
       | "tk.set_admin", [n, au] =>
         match parseAddr n, parseAuth au with
         | some n, some au => finish s (transferOwnership st (ctx s au [st.owner]) n)
